@@ -400,6 +400,33 @@ pub fn c13(ctx: &mut Ctx, tier: &str, seed: u64) {
                         ctx.fail("typed-with_extension-agrees", None, rp.clone(), format!("typed \"{}\" bytes \"{}\"", lossy(&tv), lossy(&r)));
                     }
                 }
+                // the SAME buffer across calls (spare capacity, earlier truncation): each call must give what
+                // a fresh buffer with the same bytes gives
+                {
+                    let seq: [&[u8]; 4] = [b"rs", x.as_slice(), b"longer_ext", x.as_slice()];
+                    macro_rules! same_buf {
+                        ($B:ty) => {{
+                            let mut b = <$B>::from(s.as_slice());
+                            b.reserve(3);
+                            let mut bad = None;
+                            for (i, e) in seq.iter().enumerate() {
+                                let before = b.as_bytes().to_vec();
+                                let k = b.set_extension(e);
+                                let mut fresh = <$B>::from(before.as_slice());
+                                let kf = fresh.set_extension(e);
+                                if b.as_bytes() != fresh.as_bytes() || k != kf {
+                                    bad = Some(format!("call {} (ext \"{}\") on the reused buffer \"{}\" gave \"{}\", on a fresh one \"{}\"", i, lossy(e), lossy(&before), lossy(b.as_bytes()), lossy(fresh.as_bytes())));
+                                    break;
+                                }
+                            }
+                            bad
+                        }};
+                    }
+                    let bad = if win { same_buf!(WindowsPathBuf) } else { same_buf!(UnixPathBuf) };
+                    if let Some(dd) = bad {
+                        ctx.fail("set_extension-history-independent", None, format!("hist {} {} setext:{} setext:{}", e, hex(s), hex(b"rs"), hex(x)), dd);
+                    }
+                }
                 // repeated application: the second extension wins
                 if f.is_some() && !x.contains(&b'.') {
                     let (r2, _) = set_ext_b(win, &r, b"zz");
